@@ -20,9 +20,19 @@ func propC14(c *Ctx) {
 		"Overlap's definition-by-composition equals window intersection for sizes < 2^31 (TCP windows are <= 2^30)",
 	}
 	S1 := c.Rule("S1", "K9/affine32", "seqnum primitive == serial-number definition for all operands", 8)
+	seqnumPrimitives(c, S1, nil)
 	S2 := c.Rule("S2", "lint", "no raw ordering comparison / widening of seqnum.Value in tcp, header, stack", 1)
 	S3 := c.Rule("S3", "K5", "segmentHeap.Less orders by sequenceNumber.LessThan", 1)
 
+	// S2: lint over the packages that hold TCP state.
+	sites := seqLint(c, S2, []string{"protocol/transport/tcp", "protocol/header", "stack"})
+	propC14Rest(c, S2, S3, sites)
+}
+
+// seqnumPrimitives decides the pkg/seqnum primitives against their
+// definitions (all of them when only is nil). Shared with the properties
+// whose mechanisms are written in terms of these primitives (C04).
+func seqnumPrimitives(c *Ctx, S1 string, only map[string]bool) {
 	half := uint64(1) << 31
 	ltSpec := func(a, b aff) form { return mkIn(b.add(a, 0xffffffff), iset{{1, half - 1}}) }
 	// Functions defined by composition with LessThan (LessThanEq, Overlap) are
@@ -55,6 +65,9 @@ func propC14(c *Ctx) {
 		{"(*seqnum.Value).UpdateForward", "update", nil, v("*$0").add(v("$1"), 1)},
 	}
 	for _, sp := range specs {
+		if only != nil && !only[sp.name] {
+			continue
+		}
 		fn := c.P.Func(sp.name)
 		if fn == nil {
 			c.Broken(S1, sp.name, "anchor-unresolved: "+sp.name)
@@ -107,9 +120,9 @@ func propC14(c *Ctx) {
 			c.Check(ok, S1, sp.name, pos, "*$0 := "+got, "*$0 := "+got+" on some path, definition "+sp.a.key())
 		}
 	}
+}
 
-	// S2: lint over the packages that hold TCP state.
-	sites := seqLint(c, S2, []string{"protocol/transport/tcp", "protocol/header", "stack"})
+func propC14Rest(c *Ctx, S2, S3 string, sites int) {
 	c.Extra["seqnum_value_binops_in_scope"] = sites
 	// positive fixture: tcpconntrack is known to contain raw orderings of
 	// seqnum.Value; the lint must see them (keeps the zero-expected rule non-vacuous).
